@@ -19,6 +19,7 @@ From PTK Require Import Lib.Sx Lib.Py Model.Document Model.BufferEdit Model.C02_
   Proofs.C02_Base Proofs.C02_Coords Proofs.C02_WordsExact Proofs.C02_FindExact
   Proofs.C02_Words Proofs.C02_Boundaries
   Proofs.C08_SessionFacts Proofs.C08_LinewiseRange Proofs.C08_Spans Proofs.C08_Commands
+  Proofs.C08_LineNumbers
   Proofs.C08_Tables.
 Import ListNotations.
 Open Scope Z_scope.
@@ -170,9 +171,9 @@ Theorem C08_transform_empty_is_noop : forall F st o ev,
 Proof. exact op_transform_empty. Qed.
 Print Assumptions C08_transform_empty_is_noop.
 
-(* Indent operators: the new text is the old one with exactly the rows
-   from_row..to_row of get_line_numbers rewritten (transform_lines; its
-   frame property is C01's transform_lines_spec). *)
+(* Indent operators (definitional step): the new text is transform_lines over
+   the rows of get_line_numbers; what those rows are, against the span, and the
+   resulting frame statement are C08_line_numbers_* / C08_indent_rows_*. *)
 Theorem C08_indent_frame : forall st o ev st',
   op_indent st o ev = (0, st') ->
   let '(f, t) := get_line_numbers (vbuf st) o in
@@ -189,7 +190,8 @@ Theorem C08_unindent_frame : forall st o ev st',
 Proof. exact op_unindent_text. Qed.
 Print Assumptions C08_unindent_frame.
 
-(* gq keeps the lines before from_row and after to_row. *)
+(* gq (helper level): reshape_text keeps the list prefix before from_row and the
+   suffix after to_row; which rows the operator passes is C08_reshape_rows_*. *)
 Theorem C08_reshape_frame : forall b f t,
   reshape_text b f t = b \/
   exists mid,
@@ -340,7 +342,7 @@ Print Assumptions C08_delete_span_linewise_inbounds.
    survives it: the keys that follow run from the cleared state, whatever
    counts were typed (patched or not). *)
 Theorem C08_cancelled_operator_noop : forall p s ds1 k keys ds2 rest,
-  ks_op s = None -> vins (ks_vst s) = false ->
+  ks_op s = None -> vins (ks_vst s) = false -> nav_cursor (vbuf (ks_vst s)) ->
   is_count (ks_arg s) ds1 -> is_count None ds2 ->
   run_keys_gen p s (map KD ds1 ++ KO k keys :: map KD ds2 ++ KE :: rest) =
   run_keys_gen p (cleared s) rest.
@@ -370,9 +372,12 @@ Proof. exact operator_motion_step. Qed.
 Print Assumptions C08_operator_motion_step.
 
 (* digits typed before or after the operator only extend the count (a 0
-   after a non-empty count is a digit, not the start-of-line motion) *)
+   after a non-empty count is a digit, not the start-of-line motion);
+   [digits_ok]: an operator is pending, or the cursor is a navigation cursor
+   (from a cursor after the end of a line the first digit handler already
+   moves it onto the last character - in the model, covered by correspondence) *)
 Theorem C08_typed_digits : forall p ds s rest,
-  is_count (ks_arg s) ds -> vins (ks_vst s) = false ->
+  is_count (ks_arg s) ds -> vins (ks_vst s) = false -> digits_ok s ->
   run_keys_gen p s (map KD ds ++ rest) = run_keys_gen p (with_arg s (typed (ks_arg s) ds)) rest.
 Proof. exact run_digits. Qed.
 Print Assumptions C08_typed_digits.
@@ -433,6 +438,123 @@ Theorem C08_failed_motion_noop_pinned_refuted :
    = [32; 32; 32; 32; 97; 98; 99; 32; 100; 101; 102]).
 Proof. exact failed_motion_pinned_not_noop. Qed.
 Print Assumptions C08_failed_motion_noop_pinned_refuted.
+
+(* The ghost flag [failed] of the model only marks what /repo cancels: either
+   the text object is one of those whose function returns None on failure
+   (e E ge gE g_ j k), or the object is exclusive with equal ends - the two
+   tests of _apply_operator_to_text_object.  Hence the wrapper's decision is
+   "None family and failed, or empty exclusive object". *)
+Theorem C08_failed_flag_sound : forall m d n hc o,
+  text_object m d n hc = TO o true ->
+  none_family m = true \/ (ttype o = EXCL /\ tstart o = tend o).
+Proof. exact failed_flag_sound. Qed.
+Print Assumptions C08_failed_flag_sound.
+
+Theorem C08_cancelled_spec : forall m d n hc o failed,
+  text_object m d n hc = TO o failed ->
+  cancelled o failed = (none_family m && failed) || (is_excl (ttype o) && (tstart o =? tend o)).
+Proof. exact cancelled_spec. Qed.
+Print Assumptions C08_cancelled_spec.
+
+(* [cleared s] (the state after a cancelled operator or Escape) has run the
+   navigation-mode cursor fix-up like every other handler; for a navigation
+   cursor (not after the last character of a non-empty line) it is s with
+   nothing pending - "the cursor stays" holds exactly for those cursors
+   ('ab' cursor 2 dFx ends with cursor 1, as in /repo). *)
+Theorem C08_cleared_nav : forall s,
+  nav_cursor (vbuf (ks_vst s)) -> cleared s = mkks (ks_vst s) None None None (ks_last s).
+Proof. exact cleared_nav. Qed.
+Print Assumptions C08_cleared_nav.
+
+(* ------------------------------------------------------------------ *)
+(* The line operators against the rows of the span.  get_line_numbers is
+   (row of the first spanned character, row of the last spanned character)
+   for a non-empty exclusive span and for an inclusive span that does not end
+   ON a line ending, and (row of lo, row of hi) for a linewise object; then
+   > and < rewrite exactly those rows and keep every other line in place, gq
+   reshapes exactly those rows.  Exception (known finding C08-F1): an inclusive
+   object ending on a line ending also gets the following row. *)
+Theorem C08_line_numbers_charwise : forall b o,
+  charwise (ttype o) ->
+  let d := bdoc b in
+  let lo := bcur b + Z.min (tstart o) (tend o) in
+  let hi := bcur b + Z.max (tstart o) (tend o) + (if is_incl (ttype o) then 1 else 0) in
+  0 <= lo -> lo < hi -> hi <= len (btext b) ->
+  (ttype o = INCL -> last_not_nl (btext b) hi) ->
+  get_line_numbers b o = (rowof d lo, rowof d (hi - 1)).
+Proof. exact line_numbers_charwise. Qed.
+Print Assumptions C08_line_numbers_charwise.
+
+Theorem C08_line_numbers_linewise : forall b o,
+  ttype o = LINEW ->
+  let d := bdoc b in
+  let lo := bcur b + Z.min (tstart o) (tend o) in
+  let hi := bcur b + Z.max (tstart o) (tend o) in
+  0 <= lo -> hi <= len (btext b) ->
+  get_line_numbers b o = (rowof d lo, rowof d hi).
+Proof. exact line_numbers_linewise. Qed.
+Print Assumptions C08_line_numbers_linewise.
+
+Theorem C08_line_numbers_inclusive_on_newline_refuted :
+  let b := mkbuf [120; 10; 10] 2 in
+  let o := mkto (-2) 0 INCL in
+  get_line_numbers b o = (0, 2).
+Proof. exact line_numbers_inclusive_on_newline. Qed.
+Print Assumptions C08_line_numbers_inclusive_on_newline_refuted.
+
+Theorem C08_indent_rows_charwise : forall st o ev st',
+  charwise (ttype o) ->
+  let b := vbuf st in
+  let d := bdoc b in
+  let lo := bcur b + Z.min (tstart o) (tend o) in
+  let hi := bcur b + Z.max (tstart o) (tend o) + (if is_incl (ttype o) then 1 else 0) in
+  0 <= lo -> lo < hi -> hi <= len (btext b) ->
+  (ttype o = INCL -> last_not_nl (btext b) hi) ->
+  (op_indent st o ev = (0, st') ->
+   rows_rewritten (fun l => str_mul INDENT (earg ev) ++ l) (btext b) (btext (vbuf st')) (rowof d lo) (rowof d (hi - 1))) /\
+  (op_unindent st o ev = (0, st') ->
+   rows_rewritten (unindent_line (str_mul INDENT (earg ev))) (btext b) (btext (vbuf st')) (rowof d lo) (rowof d (hi - 1))).
+Proof. exact indent_rows_charwise. Qed.
+Print Assumptions C08_indent_rows_charwise.
+
+Theorem C08_indent_rows_linewise : forall st o ev st',
+  ttype o = LINEW ->
+  let b := vbuf st in
+  let d := bdoc b in
+  let lo := bcur b + Z.min (tstart o) (tend o) in
+  let hi := bcur b + Z.max (tstart o) (tend o) in
+  0 <= lo -> hi <= len (btext b) ->
+  (op_indent st o ev = (0, st') ->
+   rows_rewritten (fun l => str_mul INDENT (earg ev) ++ l) (btext b) (btext (vbuf st')) (rowof d lo) (rowof d hi)) /\
+  (op_unindent st o ev = (0, st') ->
+   rows_rewritten (unindent_line (str_mul INDENT (earg ev))) (btext b) (btext (vbuf st')) (rowof d lo) (rowof d hi)).
+Proof. exact indent_rows_linewise. Qed.
+Print Assumptions C08_indent_rows_linewise.
+
+Theorem C08_reshape_rows_charwise : forall st o ev,
+  charwise (ttype o) ->
+  let b := vbuf st in
+  let d := bdoc b in
+  let lo := bcur b + Z.min (tstart o) (tend o) in
+  let hi := bcur b + Z.max (tstart o) (tend o) + (if is_incl (ttype o) then 1 else 0) in
+  0 <= lo -> lo < hi -> hi <= len (btext b) ->
+  (ttype o = INCL -> last_not_nl (btext b) hi) ->
+  op_reshape st o ev = (0, with_buf st (reshape_text b (rowof d lo) (rowof d (hi - 1)))) /\
+  0 <= rowof d lo <= rowof d (hi - 1).
+Proof. exact reshape_rows_charwise. Qed.
+Print Assumptions C08_reshape_rows_charwise.
+
+Theorem C08_reshape_rows_linewise : forall st o ev,
+  ttype o = LINEW ->
+  let b := vbuf st in
+  let d := bdoc b in
+  let lo := bcur b + Z.min (tstart o) (tend o) in
+  let hi := bcur b + Z.max (tstart o) (tend o) in
+  0 <= lo -> hi <= len (btext b) ->
+  op_reshape st o ev = (0, with_buf st (reshape_text b (rowof d lo) (rowof d hi))) /\
+  0 <= rowof d lo <= rowof d hi.
+Proof. exact reshape_rows_linewise. Qed.
+Print Assumptions C08_reshape_rows_linewise.
 
 (* ------------------------------------------------------------------ *)
 (* The text-object functions return the intended span (core subset; from
@@ -596,7 +718,7 @@ Print Assumptions C08_cmd_d_zero.
 Theorem C08_cmd_d_w : forall st d n hc W l j ev,
   at_doc st d -> valid d -> 1 <= n ->
   enumerates (fun j => dcur d < j /\ word_start (word_cls W) (dtext d) j) l ->
-  pick l n = Some j -> j <= len (dtext d) ->
+  pick l n = Some j ->
   text_object (T_w W) d n hc = TO (mk1 (j - dcur d)) false /\
   (snd (translate_index_to_position d j) <> 0 ->
      removes st (op_delete true false st (mk1 (j - dcur d)) ev) (dcur d) j) /\
@@ -608,7 +730,7 @@ Print Assumptions C08_cmd_d_w.
 Theorem C08_cmd_d_b : forall st d n hc W l j ev,
   at_doc st d -> valid d -> 1 <= n ->
   enumerates (fun j => j < dcur d /\ word_start (word_cls W) (dtext d) j) l ->
-  pick (rev l) n = Some j -> 0 <= j ->
+  pick (rev l) n = Some j ->
   0 < len (current_line_before_cursor d) ->
   text_object (T_b W) d n hc = TO (mk1 (j - dcur d)) false /\
   removes st (op_delete true false st (mk1 (j - dcur d)) ev) j (dcur d).
@@ -618,7 +740,7 @@ Print Assumptions C08_cmd_d_b.
 Theorem C08_cmd_d_e : forall st d n hc W l j ev,
   at_doc st d -> valid d -> 1 <= n ->
   enumerates (fun j => dcur d + 1 < j /\ word_end (word_cls W) (dtext d) j) l ->
-  pick l n = Some j -> j <= len (dtext d) ->
+  pick l n = Some j ->
   text_object (T_e W) d n hc = TO (mkto (j - 1 - dcur d) 0 INCL) false /\
   removes st (op_delete true false st (mkto (j - 1 - dcur d) 0 INCL) ev) (dcur d) j.
 Proof. exact cmd_d_e. Qed.
